@@ -162,6 +162,13 @@ def evaluate(ctx, deep):
                     for _ in range(reps):
                         keys = pick_inputs(rng, n, m, order)
                         run_one(ctx, n, keys, order, fam_out)
+    if deep:        # one wider size (15 qubits), thinned
+        n = 7
+        for m in (1, 2, 5, 17, 64, 127, 128):
+            for order in ("random", "gray", "desc"):
+                for fam_out in [OUT_FAMS[i] for i in rng.choice(len(OUT_FAMS), size=2, replace=False)]:
+                    keys = pick_inputs(rng, n, m, order)
+                    run_one(ctx, n, keys, order, fam_out)
 
 
 def replay(ctx, case):
